@@ -9,8 +9,9 @@
     identifiers, first layer in [glyphs] and nobody else, distinct layer directories and glif file
     names.  [font_equiv] is the equality of the property: everything but the creator, numbers /
     colours under the part equalities, feature text up to line endings, stores byte-identical. *)
-Require Import Norad.Model.Base Norad.Model.FontRT Norad.Model.FontToy Norad.Model.FontNum
-               Norad.Proofs.FontRTP Norad.Proofs.FontToyP Norad.Proofs.FontNumP.
+Require Import Norad.Model.GlifSpec Norad.Model.GlifEncode Norad.Proofs.GlifEncodeP Norad.Proofs.GlifRoundtripP.
+Require Import Norad.Model.Base Norad.Model.FontRT Norad.Model.FontToy Norad.Model.FontNum Norad.Model.FontReal
+               Norad.Proofs.FontRTP Norad.Proofs.FontToyP Norad.Proofs.FontNumP Norad.Proofs.FontRealP.
 Open Scope N_scope.
 
 Theorem C01_roundtrip : forall (S : sig), sig_ok S -> forall o (f : font S),
@@ -106,3 +107,44 @@ Example C01_empty_font_file_set :
   exists t, save toy_sig 0 toy_empty = Ok t /\
     paths_of toy_sig norad_names t = [[s "metainfo.plist"]; [s "layercontents.plist"]; [s "glyphs"; s "contents.plist"]].
 Proof. eexists. split; vm_compute; reflexivity. Qed.
+
+(** ---------- with the REAL part models plugged in (Model/FontReal.v) ----------
+
+    [real_sig pf ff ff3 fi fh B]: the glif codec is the real one — [encode_glif] / [parse_glif] of
+    Model/GlifEncode.v / GlifParse.v on the glyph type of Model/Glif.v, names assigned as
+    Layer::load_impl does; every other part is that of an arbitrary base signature [B].
+
+    Hypotheses that remain, and what discharges them:
+    - [base_laws B] = the laws of [sig_ok] for metainfo, font info, lib, groups, kerning,
+      layercontents, contents, layerinfo, the dictionary algebra, defaults and validators (NOT the
+      glif laws: those are proved).  Font info: C13_entry_points_agree (Model/FontInfo.v), groups
+      validity: C15_validate_iff / C15_save_iff (Model/Groups.v), numbers of kerning / info:
+      Model/Num.v; the plist parts and the dictionary algebra: the L1 plist hypothesis
+      (plist_read (plist_write v) = Some v) over Model/Plist.v — next steps of the instantiation.
+    - [L1_glif]: f64 Display / from_str invert on finite numbers, the {:.3} rendering of a colour
+      channel holds no comma and reads back inside 0..1, {:04X} reads back (the L1 hypotheses of
+      C02_roundtrip_partial; validated on every value by the C02 run).
+    - in [font_valid]: every glyph satisfies [wf_glyph]: the glyph rules of C12, finite numbers, a
+      surviving note, canonical numbers / colours, and NO LIBS (glyph lib, object libs) — the
+      composite glif round trip of C02 is proved for lib-free glyphs only (C02_roundtrip_partial);
+      glyphs with libs stay covered by the parametric theorem and the run.
+    On that domain the glyphs come back exactly ([C01_roundtrip_real_glyphs_exact]). *)
+Theorem C01_roundtrip_real : forall pf ff ff3 fi fh (B : sig),
+  L1_glif pf ff ff3 fh -> base_laws B ->
+  forall o (f : font (real_sig pf ff ff3 fi fh B)),
+  font_valid (real_sig pf ff ff3 fi fh B) f ->
+  exists t, save (real_sig pf ff ff3 fi fh B) o f = Ok t /\
+            spec_write (real_sig pf ff ff3 fi fh B) norad_choices o f = Some t /\
+            exists f', load (real_sig pf ff ff3 fi fh B) t = Ok f' /\ font_equiv (real_sig pf ff ff3 fi fh B) f f'.
+Proof. exact roundtrip_real. Qed.
+Theorem C01_roundtrip_real_glyphs_exact : forall pf ff ff3 fi fh (B : sig)
+  (f f' : font (real_sig pf ff ff3 fi fh B)),
+  font_equiv (real_sig pf ff ff3 fi fh B) f f' ->
+  map l_glyphs (f_layers _ f) = map l_glyphs (f_layers _ f').
+Proof. exact roundtrip_real_glyphs_exact. Qed.
+(** the remaining law hypothesis is satisfiable (every lawful signature provides it), and the glyph
+    domain holds a glyph with code points, a note, an anchor, a component and a contour *)
+Example C01_real_base_laws_satisfiable : base_laws toy_sig.
+Proof. exact (base_laws_of_sig_ok toy_sig toy_ok). Qed.
+Example C01_real_glyph_domain_inhabited : forall pf ff3, wf_glyph pf ff3 g_real_sample.
+Proof. exact real_sample_wf. Qed.
